@@ -120,6 +120,40 @@ print(json.dumps(out))
 '''
 
 
+BADREQUEST = r'''
+import json, os, subprocess, sys
+# a request the tracker cannot serve (a second UNREGISTER of the same name) must not end it -- also when the process that started it
+# runs with warnings turned into errors, which the tracker inherits: the tree keeps its single tracker and nothing is swept early
+code = """
+import json, os, tempfile, time
+import loky.backend.resource_tracker as rt
+fd, path = tempfile.mkstemp(); os.close(fd)
+rt.register(path, 'file')
+pid = rt._resource_tracker._pid
+fd2, other = tempfile.mkstemp(); os.close(fd2)
+rt.register(other, 'file'); rt.unregister(other, 'file'); rt.unregister(other, 'file')
+time.sleep(1.0)
+alive = os.path.isdir('/proc/%d' % pid) and open('/proc/%d/stat' % pid).read().split()[2] != 'Z'
+print(json.dumps({'tracker_alive': alive, 'registered_file_exists': os.path.exists(path)}), flush=True)
+try:
+    rt.unregister(path, 'file')
+except BaseException:
+    pass
+for p in (path, other):
+    try:
+        os.unlink(p)
+    except OSError:
+        pass
+"""
+out = {}
+for label, flags in (("default", []), ("warnings_as_errors", ["-W", "error::UserWarning"])):
+    r = subprocess.run([sys.executable] + flags + ["-c", code], stdout=subprocess.PIPE, stderr=subprocess.DEVNULL, text=True, timeout=60)
+    lines = [l for l in r.stdout.splitlines() if l.startswith("{")]
+    out[label] = json.loads(lines[-1]) if lines else None
+print(json.dumps(out))
+'''
+
+
 def run(ctx):
     pr = vlib.prove(ctx, PROP_FILE, ["Lifecycle", "Tracker"])
     plans = [("normal", "loky", 2, "x"), ("signals", "loky", 1, "x"), ("sigkill", "loky", 2, "leaffirst"),
@@ -158,6 +192,15 @@ def run(ctx):
     elif igot["next_op"] != "ok" or not igot["tracker_alive"]:
         fails.append((("interrupted",), [f"SIGINT during the spawn of the tracker ({igot['interrupt']}), then a tracked operation: {igot['next_op']}; "
                                          f"tracker alive afterwards: {igot['tracker_alive']}"], igot, ires["stderr"][-800:]))
+    bres = runner.run_script(BADREQUEST, vlib.REPO, timeout=180, spare_trackers=True)
+    bgot = runner.last_json(bres)
+    if bgot is None:
+        fails.append((("badrequest",), ["bad-request scenario did not complete"], None, bres["stderr"][-800:]))
+    else:
+        for label, rec in bgot.items():
+            if rec is None or not rec["tracker_alive"] or not rec["registered_file_exists"]:
+                fails.append((("badrequest", label), [f"a request the tracker cannot serve (second UNREGISTER), interpreter flags {label}: {rec} "
+                                                      "(the tracker must survive and sweep nothing while its tree is alive)"], rec, bres["stderr"][-800:]))
     if fails:
         plan, bad, got, err = fails[0]
         rp = vlib.write_replay(ctx, "real", {"kind": "tracker behaviour in a real process tree deviates", "plan": plan, "why": bad,
